@@ -107,6 +107,24 @@ def generate(rng, tier):
         lines += ['dump 0', 'print 0 0', 'roundtrip 0 1', 'dump 1', 'print 1 0', 'roundtrip 1 2', 'print 2 0']
         n += 1
         yield Scn('rt%d' % n, lines, {'class': 'roundtrip/%s' % ('annot' if flags else 'plain'), 'k': k, 'flags': flags})
+    yield from directed(rng, tier)
+
+
+def directed(rng, tier):
+    """every hostile string placed by the API (so that the state really holds it) in a scalar, a list and a title"""
+    r = rng.fork('C05d')
+    n = 0
+    for h in HOSTILE:
+        if b'\0' in h:
+            continue
+        schema = make_schema(r)
+        lines = gen.prelude(schema, 0) + ['init 1 0 0', 'init 2 0 0']
+        lines += ['setstr 0 %s %s 0' % (hx(b's'), hx(h)), 'addlist 0 %s str %s' % (hx(b'sl'), hx(h)), 'addlist 0 %s str %s' % (hx(b'sl'), hx(b'x' + h + b'y')),
+                  'addtsec 0 %s %s' % (hx(b't'), hx(h if h else b'e')), 'setstr 0 %s %s 0' % (hx(b'sec|l'), hx(h))]
+        k = len(lines)
+        lines += ['dump 0', 'print 0 0', 'roundtrip 0 1', 'dump 1', 'print 1 0', 'roundtrip 1 2', 'print 2 0']
+        n += 1
+        yield Scn('hs%d' % n, lines, {'class': 'roundtrip/hostile-by-api', 'k': k, 'flags': 0})
 
 
 def nontrivial(scn, il):
